@@ -393,4 +393,43 @@ theorem wireKids_valid {d : Dtd} (hd : dtdOk d = true) :
               exact ⟨normEOL_ok p false hp', this⟩⟩
 end
 
+/-! ### transport -/
+
+open Pywbem.Model.Req Pywbem.Proto in
+theorem transport_ok {r r' : Headers × Xml} (h : transport r = .ok r') :
+    r' = r ∧ ∀ p ∈ r.1, headerValueOk p.2 = true ∧ latin1Ok p.2 = true := by
+  unfold transport at h
+  split at h
+  · cases h
+  · rename_i h1
+    split at h
+    · cases h
+    · rename_i h2
+      cases h
+      refine ⟨rfl, fun p hp => ?_⟩
+      have a : r.1.all (fun p => headerValueOk p.2) = true := by
+        cases hb : r.1.all (fun p => headerValueOk p.2) <;> simp [hb] at h1 ⊢
+      have b : r.1.all (fun p => latin1Ok p.2) = true := by
+        cases hb : r.1.all (fun p => latin1Ok p.2) <;> simp [hb] at h2 ⊢
+      exact ⟨List.all_eq_true.mp a p hp, List.all_eq_true.mp b p hp⟩
+
+open Pywbem.Model.Req in
+/-- a header value `requests` lets through contains neither CR nor LF -/
+theorem headerValueOk_noCRLF {v : Str} (h : headerValueOk v = true) : '\r' ∉ v ∧ '\n' ∉ v := by
+  cases v with
+  | nil => simp
+  | cons c cs =>
+    simp only [headerValueOk, Bool.and_eq_true, List.all_eq_true] at h
+    have hc : c ≠ '\r' ∧ c ≠ '\n' := by
+      constructor <;> (intro e; subst e; simp [pyIsSpace] at h)
+    have hcs : ∀ d ∈ cs, d ≠ '\r' ∧ d ≠ '\n' := by
+      intro d hd; have := h.2 d hd; simpa using this
+    constructor
+    · intro hm; rcases List.mem_cons.mp hm with e | e
+      · exact hc.1 e.symm
+      · exact (hcs _ e).1 rfl
+    · intro hm; rcases List.mem_cons.mp hm with e | e
+      · exact hc.2 e.symm
+      · exact (hcs _ e).2 rfl
+
 end Proofs.DtdWire
